@@ -330,6 +330,14 @@ func Worker(t *testing.T, hs map[string]*Harness, pick func(prop string) *Harnes
 		tier = "quick"
 	}
 	h := pick(prop)
+	if name := os.Getenv("VERIF_HARNESS"); name != "" && hs[name] != nil {
+		h = hs[name] // a property may be served by a second harness (extra pass of the driver)
+	}
+	if f := os.Getenv("VERIF_REPLAY"); f != "" {
+		if rf, err := simcore.ReadReplay(f); err == nil && hs[rf.Harness] != nil {
+			h = hs[rf.Harness]
+		}
+	}
 	if h == nil {
 		fmt.Fprintln(os.Stderr, "no harness for property", prop)
 		os.Exit(2)
